@@ -206,6 +206,31 @@ Theorem C05_sysroot_libs_complete : forall libdir entries f,
 Proof. exact sysroot_libs_complete. Qed.
 Print Assumptions C05_sysroot_libs_complete.
 
+(* the preliminary `rustc --emit dep-info` run, from which the source files and env-deps of the key are taken, is
+   given every argument of the request except --emit / --out-dir (so it expands the crate under the same cfg as the
+   real compile: -C opt-level decides cfg(debug_assertions), --cfg, --target, ...) *)
+Theorem C05_depinfo_run_sees_request : forall args p,
+  In p args -> name_in depinfo_dropped p = false ->
+  (forall piece, In piece (pieces_of p) -> In piece (depinfo_args args)).
+Proof. exact depinfo_args_complete. Qed.
+Print Assumptions C05_depinfo_run_sees_request.
+
+(* static libraries: the digest pre-image takes every member in archive order, name then data; for archives of the same
+   shape (names and data lengths member by member) equal pre-images mean equal data in EVERY member, also in the
+   earlier of two members that share a name *)
+Theorem C05_archive_members_all_hashed : forall m1 m2 : list (bytes * bytes),
+  map (fun m => (fst m, length (snd m))) m1 = map (fun m => (fst m, length (snd m))) m2 ->
+  archive_preimage m1 = archive_preimage m2 -> m1 = m2.
+Proof. exact archive_preimage_inj. Qed.
+Print Assumptions C05_archive_members_all_hashed.
+
+(* reordering --extern: the sequence of files whose contents are hashed (paths as component lists) is the same for
+   every permutation of the --extern paths, whatever their file names and directories *)
+Theorem C05_extern_order_insensitive : forall l1 l2,
+  Permutation l1 l2 -> map components (sort_paths l1) = map components (sort_paths l2).
+Proof. exact extern_order_insensitive. Qed.
+Print Assumptions C05_extern_order_insensitive.
+
 (* ---------- non-vacuity ---------- *)
 
 Example dep_paths_ok_example :
